@@ -545,7 +545,7 @@ func init() {
 			"C06-R3 every walk over the log is handed a filter that derives (value flow) from GetIntervalNodeFilter applied to Options.FilterConfig; " +
 			"C06-R4 --begin/--end, declared on the application and on commands, are read from the context lineage root-first so the innermost position wins; " +
 			"C06-R5 the keywords today/yesterday/last7/last30 derive from the supplied now and nothing derives from time.Now; " +
-			"C06-R6 the summary window is time.Date(Year,Month,Day of the requested date, 0:00 / last instant, the date's own Location).; " +
+			"C06-R6 the summary window is time.Date(Year,Month,Day of the requested date, 0:00 / last instant, the date's own Location), wherever it is built, and it replaces the period: neither bound is set only where -b/-e had left none; " +
 			"C06-R7 time-zone dependent calls (Local, In, UTC, ParseInLocation, LoadLocation, time.Local) occur only at the two allowed sites, so no date is moved to the process zone or across a daylight-saving switch; " +
 			"C06-R8 the two bounds of a period never point at one variable that is assigned more than once (begin and end parsed into a shared temporary would both end as the last value parsed); " +
 			"C06-R9 on every successful path through Options.Load the date format and the current date that the period bounds were resolved with are the ones the path ends with (the bounds are resolved after --today, --date-format and the configuration file have been applied).",
@@ -656,12 +656,15 @@ func ruleC06R6(c *core.Ctx) {
 	summaryPkg := core.CmdPath + "/internal/summary"
 	found := 0
 	for _, fn := range c.P.Funcs {
-		if core.FnPkgPath(fn) != summaryPkg {
-			continue
-		}
-		writes := false
+		// the window is built where the bounds are set from time.Date: in the command itself or in a helper it calls
+		writes, builds := false, core.FnPkgPath(fn) == summaryPkg
 		for _, b := range fn.Blocks {
 			for _, in := range b.Instrs {
+				if ci, ok := in.(ssa.CallInstruction); ok {
+					if cal := core.Callee(ci.Common()); cal != nil && cal.String() == "time.Date" {
+						builds = true
+					}
+				}
 				if fa, ok := in.(*ssa.FieldAddr); ok {
 					if pt, ok := fa.X.Type().Underlying().(*types.Pointer); ok && types.Identical(pt.Elem(), cfgT) {
 						for _, r := range *fa.Referrers() {
@@ -673,7 +676,7 @@ func ruleC06R6(c *core.Ctx) {
 				}
 			}
 		}
-		if !writes {
+		if !writes || !builds {
 			continue
 		}
 		found++
@@ -685,6 +688,7 @@ func ruleC06R6(c *core.Ctx) {
 			pos   string
 		}
 		var bounds []bound
+		conditional := map[string]string{}
 		x.Hooks.Store = func(x *absint.Exec, s *absint.State, in *ssa.Store, addr, val absint.Value) {
 			p, ok := addr.(absint.Ptr)
 			if !ok {
@@ -699,6 +703,16 @@ func ruleC06R6(c *core.Ctx) {
 						}
 					}
 					bounds = append(bounds, bound{f, v, c.P.Pos(in.Pos())})
+					// the window replaces whatever period was set before: it is not filled in around a bound that -b/-e left
+					for k := range s.PC {
+						if !strings.HasPrefix(k, "nil(§@") {
+							continue
+						}
+						id := strings.TrimSuffix(strings.TrimPrefix(k, "nil(§@"), ")")
+						if l := x.LocOf[id]; strings.HasSuffix(l, "·BeginningTime") || strings.HasSuffix(l, "·EndTime") {
+							conditional[c.P.Pos(in.Pos())] = f
+						}
+					}
 				}
 			}
 		}
@@ -761,12 +775,15 @@ func ruleC06R6(c *core.Ctx) {
 				}
 			}
 		}
+		for pos, f := range conditional {
+			c.Violate(rule, fname, f+" unconditional", pos, "the "+f+" of the day's window is set only where the period had no such bound yet: a bound given with -b/-e (or a keyword period) survives, so `summary DATE` together with a period shows other days than DATE", nil)
+		}
 		if len(bounds) == 0 {
 			c.Undecide(rule, fname, "window", c.P.Pos(fn.Pos()), "stores to the filter bounds were not reached by the abstract interpreter", nil)
 		}
 	}
 	if found == 0 {
-		c.Note(rule + ": package summary does not write filter bounds (vacuous)")
+		c.Note(rule + ": no function sets the filter bounds from time.Date (vacuous)")
 	}
 }
 
